@@ -4,7 +4,7 @@ import json, sys
 pid = sys.argv[1]
 wt = f"/tmp/seed/{pid}"
 p = next(json.loads(l) for l in open("/verif/properties.jsonl") if json.loads(l)["id"] == pid)
-print(f"""You are testing how robust a project's safety net is. The project is jj-vcs/jj (Jujutsu, a Git-compatible VCS written in Rust). You have your own scratch git worktree of it at {wt} (a detached checkout; build output directory {wt}/target is pre-populated, so use CARGO_TARGET_DIR={wt}/target and always pass --offline; there is no network). Work ONLY inside {wt}. Never read or write anything under /repo or /verif, and do not create other worktrees.
+print(f"""You are testing how robust a project's safety net is. The project is jj-vcs/jj (Jujutsu, a Git-compatible VCS written in Rust). You have your own scratch git worktree of it at {wt} (a detached checkout; build output directory {wt}/target is pre-populated, so use CARGO_TARGET_DIR={wt}/target and always pass --offline; there is no network). Disk space is tight: export CARGO_INCREMENTAL=0 before every cargo command and do not keep extra copies of the target directory. Work ONLY inside {wt}. Never read or write anything under /repo or /verif, and do not create other worktrees.
 
 The semantic property under test:
 
